@@ -52,7 +52,24 @@ ASSUMPTIONS = [
     "column order is claimed for numeric boxes_flow in (-1, 1), columns of equal vertical extent, pairwise distinct "
     "box distances (no id() tie)",
 ]
-STATEMENT_STATUS: Dict[str, str] = {}
+STATEMENT_STATUS: Dict[str, str] = {
+    "C09_voverlap_true": "proved (after fix 1584d7d the coded overlap IS the interval overlap, nested boxes included)",
+    "C09_hoverlap_true": "proved",
+    "C09_join_iff": "proved for all well-formed boxes and all parameters (strictness included)",
+    "C09_join_iff_vertical": "proved",
+    "C09_pair": "proved (what group_objects does with two glyphs, in terms of the two predicates)",
+    "C09_space_iff": "proved (unconditional)", "C09_space_iff_vertical": "proved", "C09_add_space": "proved",
+    "C09_neighbour_pred": "proved (unconditional)", "C09_neighbour_pred_vertical": "proved",
+    "C09_neighbour_iff": "proved: find_neighbors through the grid index = documented relation (line_margin >= 0, "
+                         "non-empty lines, well-formed page; uses C20 plane_find)",
+    "C09_no_neighbour_if_negative": "proved",
+    "C09_column_order_partial": "partial: sort-key inequalities only; that a column is merged before the columns are "
+                                "joined is tested on generated layouts, not proved",
+    "C09_scale_predicates": "proved (all predicates/measures homogeneous, any s > 0)",
+    "C09_scale_lines": "proved: group_objects, word spaces and the empty-line split commute with scaling",
+    "C09_scale_statement": "full statement for group_textlines - FALSE for the code",
+    "C09_scale_cex": "proved counter-example (open finding C09-scale-equal-key-line-order, replayed on the implementation)",
+}
 
 CLASSIFIERS = {
     # the order of lines with EQUAL top edge inside one box follows Plane.find's cell scan order,
@@ -237,7 +254,7 @@ def run_predicates(ctx: C.Ctx) -> None:
         reqs.append("pred " + name + " " + " ".join(S(x) for x in nums))
         meta.append((name, impl_val, info))
 
-    n = ctx.n(1500, 40000)
+    n = ctx.n(3000, 40000)
     for i in range(n):
         if not ctx.time_left():
             break
@@ -367,7 +384,7 @@ def gen_columns(rng):
 def run_columns(ctx: C.Ctx, batch) -> None:
     from pdfminer.layout import LTChar, LTTextBox
     rng = ctx.rng
-    for i in range(ctx.n(60, 1500)):
+    for i in range(ctx.n(100, 1500)):
         if not ctx.time_left():
             break
         case, order, ncol = gen_columns(rng)
@@ -445,7 +462,7 @@ def scale_check(ctx: C.Ctx, case, batch, ks) -> Optional[C.Failure]:
 
 def run_scale(ctx: C.Ctx, batch) -> None:
     rng = ctx.rng
-    n = ctx.n(120, 3000)
+    n = ctx.n(120, 700)
     ties = TieOracle(ctx)
     for i in range(n):
         if not ctx.time_left():
